@@ -440,3 +440,265 @@ func (c *Ctx) assertGuarded(ta *ssa.TypeAssert) bool {
 	}
 	return false
 }
+
+// ---------------------------------------------------------------------------
+// R-SNAPSHOT, second part (added after seeds C05/C09): a delayed closure neither keeps a pointer into
+// a clause array nor limits its search of the live list by a position computed at call time.
+
+func ruleSnapshotPointers(c *Ctx, r *Report) {
+	const rule = "R-SNAPSHOT"
+	n := 0
+	for _, fn := range c.LibFuncs() {
+		eachInstr(fn, func(in ssa.Instruction) {
+			ia, ok := in.(*ssa.IndexAddr)
+			if !ok || !c.isClauseSlice(ia.X.Type()) {
+				return
+			}
+			// is the element address retained by delayed code? (stored into a variable captured by a closure,
+			// bound into a closure directly, or stored into a struct)
+			for _, ref := range *ia.Referrers() {
+				switch x := ref.(type) {
+				case *ssa.Store:
+					if x.Val != ssa.Value(ia) {
+						continue
+					}
+					n++
+					cell := c.varCell(x.Addr)
+					captured := false
+					if cell != nil {
+						for _, r2 := range *cell.Referrers() {
+							if _, ok := r2.(*ssa.MakeClosure); ok {
+								captured = true
+							}
+						}
+					}
+					key := fmt.Sprintf("%s/&clauses[i]", fname(fn))
+					if captured || cell == nil {
+						r.bad(rule, key, c.at(x), "delayed alternatives hold copies of clauses, not pointers into the clause array",
+							"the address of a clause-array element is kept for a closure: when the alternative is tried it reads whatever occupies that slot then (retract shifts and zeroes slots)")
+					} else {
+						r.ok(rule, fmt.Sprintf("%s/&clauses[i][%d]", fname(fn), n), c.at(x), "delayed alternatives hold copies of clauses, not pointers into the clause array", "element address stays in a local variable that no closure captures", true)
+					}
+				case *ssa.MakeClosure:
+					n++
+					r.bad(rule, fmt.Sprintf("%s/&clauses[i]", fname(fn)), c.at(x), "delayed alternatives hold copies of clauses, not pointers into the clause array", "a closure binds the address of a clause-array element")
+				}
+			}
+		})
+		// comparisons between a live-list index and a captured call-time position
+		if fn.Parent() == nil {
+			continue
+		}
+		liveIdx := map[ssa.Value]bool{}
+		eachInstr(fn, func(in ssa.Instruction) {
+			var x ssa.Value
+			var idx []ssa.Value
+			switch v := in.(type) {
+			case *ssa.IndexAddr:
+				x, idx = v.X, []ssa.Value{v.Index}
+			case *ssa.Slice:
+				x = v.X
+				for _, i := range []ssa.Value{v.Low, v.High} {
+					if i != nil {
+						idx = append(idx, i)
+					}
+				}
+			default:
+				return
+			}
+			if !c.isClauseSlice(x.Type()) {
+				return
+			}
+			if _, ok := loadsField(x, "userDefined", "clauses"); !ok {
+				return
+			}
+			for _, i := range idx {
+				dataSlice(i, func(v ssa.Value) bool {
+					if _, isPhi := v.(*ssa.Phi); isPhi {
+						liveIdx[v] = true
+					}
+					return true
+				})
+			}
+		})
+		eachInstr(fn, func(in ssa.Instruction) {
+			bo, ok := in.(*ssa.BinOp)
+			if !ok {
+				return
+			}
+			switch bo.Op {
+			case token.LSS, token.LEQ, token.GTR, token.GEQ, token.EQL, token.NEQ:
+			default:
+				return
+			}
+			var other ssa.Value
+			switch {
+			case liveIdx[bo.X]:
+				other = bo.Y
+			case liveIdx[bo.Y]:
+				other = bo.X
+			default:
+				return
+			}
+			if dep, name := dependsOnCapturedInt(other); dep {
+				n++
+				r.bad(rule, fmt.Sprintf("%s/search-bound(%s)", fname(fn), name), c.at(bo), "a delayed continuation searches the whole live clause list",
+					"the search index is compared with captured variable `"+name+"`, a position computed at call time: clauses that moved past it since then are not found")
+			}
+		})
+	}
+	r.analysed(rule, fmt.Sprintf("%d clause-element addresses / search bounds examined", n))
+}
+
+// ---------------------------------------------------------------------------
+// R-SLICE-OWNER (added after seed C20): a clause list has one owner; what is stored into an owner's list
+// field is built by append/merge/compile or re-sliced from the same owner, never another owner's slice.
+
+func ruleSliceOwner(c *Ctx, r *Report) {
+	const rule = "R-SLICE-OWNER"
+	owners := [][2]string{{"userDefined", "clauses"}, {"text", "buf"}}
+	n := 0
+	for _, fn := range c.LibFuncs() {
+		eachInstr(fn, func(in ssa.Instruction) {
+			st, ok := in.(*ssa.Store)
+			if !ok || !c.isClauseSlice(st.Val.Type()) {
+				return
+			}
+			var ownT, ownF string
+			for _, o := range owners {
+				if _, ok := fieldAddrOf(st.Addr, o[0], o[1]); ok {
+					ownT, ownF = o[0], o[1]
+				}
+			}
+			if ownT == "" {
+				return
+			}
+			n++
+			key := fmt.Sprintf("%s/%s.%s=[%d]", fname(fn), ownT, ownF, n)
+			desc := "a clause list stored into an owner is built by append/merge/compile or re-sliced from that same owner"
+			bad := ""
+			var walk func(v ssa.Value, depth int)
+			walk = func(v ssa.Value, depth int) {
+				if depth > 6 {
+					return
+				}
+				for _, l := range c.originSet(v) {
+					switch x := l.(type) {
+					case *ssa.Slice:
+						walk(x.X, depth+1) // re-slice keeps the array: look at what is re-sliced
+					case *ssa.Call:
+						// append / merge / compile results: new or same-owner memory
+					case *ssa.Extract:
+					case *ssa.Const, *ssa.MakeSlice, *ssa.Parameter:
+					case *ssa.UnOp:
+						for _, o := range owners {
+							if _, ok := loadsField(x, o[0], o[1]); ok && (o[0] != ownT || o[1] != ownF) {
+								bad = o[0] + "." + o[1]
+							}
+						}
+					}
+				}
+			}
+			walk(st.Val, 0)
+			if bad == "" {
+				r.ok(rule, key, c.at(st), desc, "no other owner's slice header flows into the store", true)
+			} else {
+				r.bad(rule, fmt.Sprintf("%s/%s.%s=%s", fname(fn), ownT, ownF, bad), c.at(st), desc,
+					"the slice header of "+bad+" is stored as is: both now share one backing array (and its spare capacity), so a later append to one overwrites the clauses of the other")
+			}
+		})
+	}
+	r.analysed(rule, fmt.Sprintf("%d stores into clause-list owner fields", n))
+}
+
+// ---------------------------------------------------------------------------
+// R-CLAUSE-BUILD (added after seed C10): the methods that grow a clause's bytecode/vars by append are
+// applied only to a clause that was not initialised by copying another clause value.
+
+func ruleClauseBuild(c *Ctx, r *Report) {
+	const rule = "R-CLAUSE-BUILD"
+	// growers: pointer-receiver methods of clause that store an append result into a slice field of the receiver,
+	// directly or through other growers
+	growers := map[*ssa.Function]bool{}
+	changed := true
+	for changed {
+		changed = false
+		for _, fn := range c.LibFuncs() {
+			if growers[fn] || fn.Signature.Recv() == nil || !isEngNamed(fn.Signature.Recv().Type(), "clause") || !isPtr(fn.Signature.Recv().Type()) {
+				continue
+			}
+			grows := false
+			eachInstr(fn, func(in ssa.Instruction) {
+				switch x := in.(type) {
+				case *ssa.Store:
+					fa, ok := x.Addr.(*ssa.FieldAddr)
+					if !ok || fa.X != ssa.Value(fn.Params[0]) {
+						return
+					}
+					if call, ok := x.Val.(*ssa.Call); ok {
+						if b, ok := call.Call.Value.(*ssa.Builtin); ok && b.Name() == "append" {
+							grows = true
+						}
+					}
+				case *ssa.Call:
+					if f := x.Call.StaticCallee(); f != nil && growers[f] && len(x.Call.Args) > 0 && x.Call.Args[0] == ssa.Value(fn.Params[0]) {
+						grows = true
+					}
+				}
+			})
+			if grows {
+				growers[fn], changed = true, true
+			}
+		}
+	}
+	if len(growers) < 3 {
+		r.undecided(rule, "anchor:growers", "-", "locate the methods that append to a clause's bytecode/vars", fmt.Sprintf("only %d found", len(growers)))
+		return
+	}
+	n := 0
+	for _, fn := range c.LibFuncs() {
+		eachInstr(fn, func(in ssa.Instruction) {
+			call, ok := in.(*ssa.Call)
+			if !ok || call.Call.StaticCallee() == nil || !growers[call.Call.StaticCallee()] {
+				return
+			}
+			recv := call.Call.Args[0]
+			if p, isParam := recv.(*ssa.Parameter); isParam && p.Parent().Signature.Recv() != nil {
+				return // forwarded receiver inside another grower
+			}
+			n++
+			key := fmt.Sprintf("%s/call %s", fname(fn), call.Call.StaticCallee().Name())
+			desc := "a clause is grown by append only if its slices are its own (it did not start as a copy of another clause)"
+			al, isAlloc := recv.(*ssa.Alloc)
+			if !isAlloc {
+				r.bad(rule, key, c.at(call), desc, "receiver is not a local clause variable")
+				return
+			}
+			copied := false
+			for _, ref := range *al.Referrers() {
+				st, ok := ref.(*ssa.Store)
+				if !ok || st.Addr != ssa.Value(al) {
+					continue
+				}
+				// a whole-struct store: zero value is fine, a loaded clause value is a copy sharing its slices
+				if _, isLoad := st.Val.(*ssa.UnOp); isLoad {
+					copied = true
+				}
+				if _, isPhi := st.Val.(*ssa.Phi); isPhi {
+					copied = true
+				}
+			}
+			if copied {
+				r.bad(rule, key, c.at(call), desc, "the clause was initialised by copying another clause value: bytecode/vars share spare capacity with the original, and a sibling built from the same original overwrites these instructions")
+			} else {
+				r.ok(rule, key, c.at(call), desc, "receiver is a zero-initialised local clause", true)
+			}
+		})
+	}
+	var gs []string
+	for g := range growers {
+		gs = append(gs, g.Name())
+	}
+	sort.Strings(gs)
+	r.analysed(rule, "growers: "+strings.Join(gs, " "), fmt.Sprintf("%d external call sites", n))
+}
